@@ -192,10 +192,23 @@ class C14:
                     if v:
                         viol.append({'clause': 'each part is submitted under its own language code with the configured rule options',
                                      'sig': 'C14:calls:' + v[0], 'detail': dict(det, calls=[(c, t) for c, t in sess.calls], parts=parts, problem=v[1])})
-            # server emulation
+            # server emulation; for multi-language documents the server is started with ANOTHER --language than the
+            # request names: the language field of the request decides
             if one:
                 ans.seen = 0
-            val, err, code, exc = sess.request({'language': [opts['lang']], 'text': [tex]})
+            if ml:
+                other = 'ru-RU' if opts['lang'] != 'ru-RU' else 'en-GB'
+                sess = shell.Session(['--language', other] + argv[2:] + ['d.tex'], ans, cwd=d)
+            sess.calls = []
+            requ = {'language': [opts['lang']], 'text': [tex]}
+            if ml:
+                requ.update({'disabledRules': ['RQD'], 'disabledCategories': ['RQC']})      # rule options come from the request
+            val, err, code, exc = sess.request(requ)
+            if ml and val is not None:
+                v = self.judge_calls(sess.calls, parts, case[4], 'RQD', 'RQC')
+                if v:
+                    viol.append({'clause': 'server: each part is submitted under its own language code (the request names the main language)',
+                                 'sig': 'C14:server:calls:' + v[0], 'detail': dict(det, calls=[(c, t) for c, t in sess.calls], parts=parts, problem=v[1])})
             if val is None:
                 viol.append({'clause': 'server answers', 'sig': 'C14:server:no-answer', 'detail': dict(det, stderr=err[-300:], exc=exc)})
             else:
@@ -270,7 +283,7 @@ class C14:
                     return ('HTML title names the line of the flagged word', 'line', {'title': title, 'expected_line': x['line']})
         return None
 
-    def judge_calls(self, calls, parts, rthresh):
+    def judge_calls(self, calls, parts, rthresh, dis='DIS', cat='CAT'):
         if [t for c, t in calls] != [t for l, t in parts]:
             return ('texts', 'submitted texts differ from the parts')
         for (cmd, t), (lang, _) in zip(calls, parts):
@@ -279,7 +292,7 @@ class C14:
             short = len(t.split()) <= rthresh
             if opt('--language') != lang:
                 return ('language', 'part %r submitted as %r, labelled %r' % (t[:30], opt('--language'), lang))
-            if opt('--disable') != ('DIS,MLD' if short else 'DIS') or opt('--disablecategories') != ('CAT,MLC' if short else 'CAT'):
+            if opt('--disable') != (dis + ',MLD' if short else dis) or opt('--disablecategories') != (cat + ',MLC' if short else cat):
                 return ('rule-options', 'part %r (%d words, threshold %d): --disable %r --disablecategories %r' % (
                     t[:30], len(t.split()), rthresh, opt('--disable'), opt('--disablecategories')))
         return None
